@@ -3,8 +3,8 @@
 spec/ByteSet.tla is the contract (state = a set of byte strings); MC_ByteSet checks its laws exhaustively
 over 7 concrete prefix-structured keys; MC_ByteSetGen generates every insert/remove history of length L
 (B2) with the TLC-computed result of every step and a TABLE of the expected observable projection of every
-abstract state; harness bin c05 drives 25 subjects (ZiporaTrie presets, legacy wrappers, DAWGs,
-ParallelLoudsTrie); Trace_ByteSet validates every recorded execution.
+abstract state; harness bin c05 drives 40 subjects (ZiporaTrie presets, node-id API, legacy wrappers and their builders, DAWGs,
+ParallelLoudsTrie, ParallelTrieBuilder); Trace_ByteSet validates every recorded execution.
 """
 import glob
 import json
@@ -83,6 +83,111 @@ def corrupt_prefix_listing(run):
     return None
 
 
+def corrupt_len_twin(run):
+    """change one of the other size reports (stats().num_keys ...) of a probe"""
+    for e in run:
+        if e.get("op") == "probe" and e.get("len_twins"):
+            e["len_twins"] = [e["len_twins"][0] + 1] + list(e["len_twins"][1:])
+            return run
+    return None
+
+
+def corrupt_is_empty(run):
+    """flip an is_empty() answer"""
+    for e in run:
+        if e.get("op") == "probe" and e.get("is_empty"):
+            e["is_empty"] = [not e["is_empty"][0]] + list(e["is_empty"][1:])
+            return run
+    return None
+
+
+def corrupt_restored(run):
+    """restore_string(id) of a member gives another string"""
+    for e in run:
+        if e.get("op") == "probe_ids":
+            ids = [list(x) for x in e["ids"]]
+            for x in ids:
+                if x[1] and x[2]:
+                    x[2] = [list(x[2][0]) + [7]]
+                    e["ids"] = ids
+                    return run
+    return None
+
+
+def corrupt_node_id_found(run):
+    """lookup_node_id of a member reported as None"""
+    for e in run:
+        if e.get("op") == "probe_ids":
+            ids = [list(x) for x in e["ids"]]
+            for x in ids:
+                if x[1]:
+                    x[1] = False
+                    x[2] = []
+                    e["ids"] = ids
+                    return run
+    return None
+
+
+def corrupt_build_loses_key(run):
+    """the probe after a chunked build misses one of the keys given to the builder (what a merge that skips a chunk
+    looks like): contains = false, len one less"""
+    uni = run[0].get("universe", [])
+    for i, e in enumerate(run):
+        if e.get("op") == "build" and e.get("ok") and e.get("keys") and i + 1 < len(run) and run[i + 1].get("op") == "probe":
+            p = run[i + 1]
+            for j, k in enumerate(uni):
+                if k in e["keys"] and p["contains"][j]:
+                    p["contains"] = list(p["contains"])
+                    p["contains"][j] = False
+                    p["len"] = p["len"] - 1
+                    return run
+    return None
+
+
+def corrupt_maintenance_changes(run):
+    """a maintenance call (shrink_to_fit / refresh_replicas) after which a member is gone"""
+    for i, e in enumerate(run):
+        if e.get("op") == "maintenance" and i + 1 < len(run) and run[i + 1].get("op") == "probe" and True in run[i + 1]["contains"]:
+            p = run[i + 1]
+            j = p["contains"].index(True)
+            p["contains"] = list(p["contains"])
+            p["contains"][j] = False
+            return run
+    return None
+
+
+def corrupt_clear_keeps(run):
+    """a clear() after which the trie still reports a member"""
+    for i, e in enumerate(run):
+        if e.get("op") == "clear" and i + 1 < len(run) and run[i + 1].get("op") == "probe":
+            p = run[i + 1]
+            p["contains"] = [True] + list(p["contains"][1:])
+            return run
+    return None
+
+
+def corrupt_insert_after(run):
+    """contains(k) right after a successful insert(k) reported false"""
+    for e in run:
+        if e.get("op") == "insert" and e.get("ok") and e.get("after"):
+            e["after"] = False
+            return run
+    return None
+
+
+def _file_of(files, subject):
+    """the first B1 trace file of a subject"""
+    for f in files:
+        with open(f) as fh:
+            first = fh.readline()
+        try:
+            if json.loads(first).get("subject") == subject:
+                return f
+        except ValueError:
+            pass
+    raise vlib.ToolError("no trace file for subject " + subject)
+
+
 def _validate(ctx, files, what):
     """ctx.validate, plus one retry of the files whose JVM failed without a verdict (observed when the machine is
     heavily loaded: 'TLC threw an unexpected exception' before the first state).  A verdict (accepted / rejected) is
@@ -141,6 +246,16 @@ def run(ctx):
     ctx.selftest_corrupt(TRACE, b1files[0], corrupt_prefix_listing, "a key without the prefix added to a keys_with_prefix() listing")
     ctx.selftest_corrupt(TRACE, b1files[0], corrupt_longest_prefix, "one longest_prefix() answer changed")
     ctx.selftest_corrupt(TRACE, b1files[0], corrupt_remove_result, "result of a remove() flipped")
+    ctx.selftest_corrupt(TRACE, b1files[0], corrupt_len_twin, "stats().num_keys of a probe changed by +1")
+    ctx.selftest_corrupt(TRACE, b1files[0], corrupt_is_empty, "one is_empty() answer flipped")
+    ctx.selftest_corrupt(TRACE, b1files[0], corrupt_insert_after, "contains(k) right after insert(k) -> Ok reported false")
+    ctx.selftest_corrupt(TRACE, b1files[0], corrupt_maintenance_changes, "a member missing after shrink_to_fit()")
+    ids_file = _file_of(b1files, "patricia:node_id_api")
+    ctx.selftest_corrupt(TRACE, ids_file, corrupt_restored, "restore_string(node id) returns another string")
+    ctx.selftest_corrupt(TRACE, ids_file, corrupt_node_id_found, "lookup_node_id of a member reported None")
+    builder_file = _file_of(b1files, "par:builder")
+    ctx.selftest_corrupt(TRACE, builder_file, corrupt_build_loses_key, "a key given to ParallelTrieBuilder missing from the built trie")
+    ctx.selftest_corrupt(TRACE, _file_of(b1files, "dawg:nested_rooted"), corrupt_clear_keeps, "a member reported after clear()")
     # --- evidence
     cov = ctx.cov
     b2_exec = sum(s.get("executions", 0) for s in s2s)
@@ -183,7 +298,11 @@ def run(ctx):
                    "(subject, history) pairs executed (histories with remove only on subjects that offer remove), every one contains a "
                    "mutating call.  B1: seeded random histories per subject over generated universes of 8 and 40 keys (shared "
                    "prefixes, 0x00/0xFF bytes, the empty key, keys of 150-322 bytes), full probe after every mutating call, every event "
-                   "validated by TLC against ByteSet.tla.  exhaustive refers to the B2 history space." %
+                   "validated by TLC against ByteSet.tla.  Builder sweep: every bulk builder (build_from_keys, build_from_sorted / _unsorted / "
+                   "new_compact, NestedLoudsTrie::builder().build_from_iter, ParallelLoudsTrie::from_trie, ParallelTrieBuilder with chunk_size "
+                   "1, 2, 3, n-1, n, n+1 and 1/2/4 workers; thorough: default chunk size with 10 000 and 10 001 keys) over key lists of 0..13 "
+                   "keys, sorted and unsorted with a repeated key, followed by insert / shrink_to_fit / refresh_replicas / merge_tries / clear.  "
+                   "exhaustive refers to the B2 history space." %
                    ", ".join("%d keys L=%d" % (nk, L) for _, nk, L in gens))
     if b1files:
         ctx.sample_from_trace(b1files[0], 8)
